@@ -129,6 +129,7 @@ inductive Act where
   | cancel (r : Reason)
   -- client send side
   | cSendBegin (m : Nat) | cSendEnq | cSendCtx | cSendRemote
+  | cSendRefused                    -- SendMsg with a message the cloner refuses (e.g. not a protobuf message)
   | cCloseSend
   -- client receive side
   | cRecvBegin | cHeaderBegin | cTake | cClosed | cCtx
@@ -173,6 +174,9 @@ def step (s : St) : Act → Option (St × List Ev)
     if s.cSend.isSome then none
     else if s.sendClosed then some (s, [.ret .cs .plainErr])
     else some ({ s with cSend := some m, cOffered := s.cOffered ++ [m] }, [])
+  | .cSendRefused =>
+    -- the send-side mutex is taken and released again; nothing reaches the channel, nothing changes
+    if s.cSend.isSome then none else some (s, [.ret .cs .plainErr])
   | .cSendEnq =>
     match s.cSend with
     | none => none
